@@ -27,6 +27,7 @@ import (
 	"go/token"
 	"os"
 	"path/filepath"
+	"reflect"
 	"sort"
 	"strings"
 )
@@ -268,10 +269,18 @@ func (c *ctx) seq(es []ex, k func(names []string) ex) ex {
 	return ex{code, false, r.ty}
 }
 
+// names the generated Coq code cannot use for a Go variable: Coq keywords and the global names of the models the generated code is
+// written over (definitions, constructors, record fields of Term.v, Unify.v, Goal.v, Stream.v, Reify.v, Reflect.v, GCore.v, GoLite*.v)
+var coqTaken = map[string]bool{}
+
+func init() {
+	for _, n := range strings.Fields(`N O S Z andb any_loop any_loopM any_loopR app app_goal arg_env as assv at atom atom_eqb bind bindk bool callbacks carcdr cast_var cast_var2 cell_state children close cofix conj conjplus_z cons cons_opt container_nil content ctr defs disjplus_z distinct ds elem_kind else end env environment eq_refl equalo eval evalh event ex_intro exist existT exists exported exts f false first_occ fix fold_left fold_right for forall force fresh_state from_goals fst fun gassv gbind gequalo gget ghascycle goal gres gres_is_fail grewrite gset gsub gunify gval gval_eqb gvar gwalk hd if in inl inr inst is_leaf is_nil is_pair is_variable kind kind_eqb kind_of l_ left length let list lookup_name make_goals make_subst map map_entries map_entriesM map_entriesR map_loop map_loopM map_loopR match mchildren mkeys mkreify mplus mslots nat negb new_stream nil nil_iface_atom nodupb nth nth_goal occurs once_loop opt_is_none option or_introl or_intror pair prod pterm rany ranyM ranyR reify_name reify_var reifys rename rename_first_occ return rev right rmap rmapM rmapR senc set_goal sg_bind sg_env sg_goal sg_run sg_thunk sgoal size slice_copy slice_ntag slice_set snd st_counter st_subst state state_is_nil store stream stream_is_nil struct struct_ntag sub subst subst_is_nil susp_bind susp_goal susp_mplus susp_self_ifThenElseLoop susp_self_onceLoop suspensions sx_car sx_cdr sx_var take tenc tencs term term_eqb term_is_nil that their then thunk tl tlistn trace true tslot tt uf unify unit unwrap using var_kind vars walk walkstar walkt wf_slot where whose with zero zero_of zip_children zip_loop zipreduce zipreduce_state`) {
+		coqTaken[n] = true
+	}
+}
+
 func varName(s string) string {
-	switch s { // Coq keywords / clashes
-	case "fun", "let", "in", "match", "end", "with", "if", "then", "else", "fix", "at", "as", "return", "f", "S", "O", "l_",
-		"pair", "nil", "cons", "tt", "inl", "inr", "left", "right", "eq_refl", "conj", "exist", "existT", "ex_intro", "or_introl", "or_intror":
+	if coqTaken[s] {
 		return s + "_"
 	}
 	return s
@@ -712,7 +721,37 @@ func (c *ctx) goalClosure(fl *ast.FuncLit) ex {
 		return src(as.Lhs[0]), g.Name, true
 	}
 	body := fl.Body.List
+	// G(s) as an expression
+	appExpr := func(e ast.Expr) (string, bool) {
+		call, ok := e.(*ast.CallExpr)
+		if !ok || len(call.Args) != 1 || src(call.Args[0]) != "s" {
+			return "", false
+		}
+		g, ok := call.Fun.(*ast.Ident)
+		if !ok || c.vars[g.Name] != "goal" {
+			return "", false
+		}
+		return g.Name, true
+	}
 	switch len(body) {
+	case 1:
+		// return micro.Mplus(G1(s), G2(s)) : Go evaluates the operands left to right, as the two assignments of micro.Disj do;
+		// return micro.Bind(G1(s), G2)
+		if ret, ok := body[0].(*ast.ReturnStmt); ok && len(ret.Results) == 1 {
+			if call, ok := ret.Results[0].(*ast.CallExpr); ok && len(call.Args) == 2 {
+				g1, ok1 := appExpr(call.Args[0])
+				if src(call.Fun) == "micro.Mplus" && ok1 {
+					if g2, ok2 := appExpr(call.Args[1]); ok2 {
+						return ex{"GDisj " + c.name(g1) + " " + c.name(g2), true, "goal"}
+					}
+				}
+				if src(call.Fun) == "micro.Bind" && ok1 {
+					if g2, ok := call.Args[1].(*ast.Ident); ok && c.vars[g2.Name] == "goal" {
+						return ex{"GConj " + c.name(g1) + " " + c.name(g2.Name), true, "goal"}
+					}
+				}
+			}
+		}
 	case 3:
 		a, g1, ok1 := app(body[0])
 		b, g2, ok2 := app(body[1])
@@ -1073,6 +1112,122 @@ func (c *ctx) call(e *ast.CallExpr) ex {
 
 // ---- statements, in continuation style: k is the Coq term for "fall off the end of this block" ("" = must not happen)
 
+// indexLoopAsRange: see the ForStmt case of stmts.
+func indexLoopAsRange(s *ast.ForStmt) (*ast.RangeStmt, bool) {
+	init, ok := s.Init.(*ast.AssignStmt)
+	if !ok || init.Tok != token.DEFINE || len(init.Lhs) != 1 || len(init.Rhs) != 1 || src(init.Rhs[0]) != "0" {
+		return nil, false
+	}
+	iv, ok := init.Lhs[0].(*ast.Ident)
+	if !ok {
+		return nil, false
+	}
+	cond, ok := s.Cond.(*ast.BinaryExpr)
+	if !ok || cond.Op != token.LSS || src(cond.X) != iv.Name {
+		return nil, false
+	}
+	lc, ok := cond.Y.(*ast.CallExpr)
+	if !ok || src(lc.Fun) != "len" || len(lc.Args) != 1 {
+		return nil, false
+	}
+	xs, ok := lc.Args[0].(*ast.Ident)
+	if !ok {
+		return nil, false
+	}
+	post, ok := s.Post.(*ast.IncDecStmt)
+	if !ok || post.Tok != token.INC || src(post.X) != iv.Name {
+		return nil, false
+	}
+	good := true
+	ast.Inspect(s.Body, func(n ast.Node) bool {
+		switch n := n.(type) {
+		case *ast.BranchStmt, *ast.FuncLit, *ast.GoStmt, *ast.DeferStmt:
+			good = false
+		case *ast.IncDecStmt:
+			if src(n.X) == iv.Name || src(n.X) == xs.Name {
+				good = false
+			}
+		case *ast.AssignStmt:
+			for _, l := range n.Lhs {
+				if id, ok := l.(*ast.Ident); ok && (id.Name == iv.Name || id.Name == xs.Name) {
+					good = false
+				}
+				if ix, ok := l.(*ast.IndexExpr); ok && src(ix.X) == xs.Name {
+					good = false
+				}
+			}
+		case *ast.UnaryExpr:
+			if n.Op == token.AND {
+				good = false
+			}
+		}
+		return good
+	})
+	if !good {
+		return nil, false
+	}
+	elem := &ast.Ident{Name: xs.Name + "_at_" + iv.Name}
+	target := xs.Name + "[" + iv.Name + "]"
+	body := replaceExpr(s.Body, func(e ast.Expr) ast.Expr {
+		if ix, ok := e.(*ast.IndexExpr); ok && src(ix) == target {
+			return elem
+		}
+		return nil
+	}).(*ast.BlockStmt)
+	return &ast.RangeStmt{Key: iv, Value: elem, Tok: token.DEFINE, X: xs, Body: body}, true
+}
+
+// replaceExpr returns a copy of the node in which every expression for which f returns non-nil is replaced by that result
+// (reflection over the go/ast node types; identifiers and literals are shared, not copied).
+func replaceExpr(n ast.Node, f func(ast.Expr) ast.Expr) ast.Node {
+	var walk func(v reflect.Value) reflect.Value
+	exprT := reflect.TypeOf((*ast.Expr)(nil)).Elem()
+	walk = func(v reflect.Value) reflect.Value {
+		switch v.Kind() {
+		case reflect.Interface:
+			if v.IsNil() {
+				return v
+			}
+			if v.Type() == exprT {
+				if r := f(v.Interface().(ast.Expr)); r != nil {
+					return reflect.ValueOf(&r).Elem()
+				}
+			}
+			out := reflect.New(v.Type()).Elem()
+			out.Set(walk(v.Elem()))
+			return out
+		case reflect.Ptr:
+			if v.IsNil() || v.Elem().Kind() != reflect.Struct {
+				return v
+			}
+			if _, isIdent := v.Interface().(*ast.Ident); isIdent {
+				return v
+			}
+			if _, isObj := v.Interface().(*ast.Object); isObj {
+				return v
+			}
+			c := reflect.New(v.Elem().Type())
+			for i := 0; i < v.Elem().NumField(); i++ {
+				if c.Elem().Field(i).CanSet() {
+					c.Elem().Field(i).Set(walk(v.Elem().Field(i)))
+				}
+			}
+			return c
+		case reflect.Slice:
+			if v.IsNil() {
+				return v
+			}
+			c := reflect.MakeSlice(v.Type(), v.Len(), v.Len())
+			for i := 0; i < v.Len(); i++ {
+				c.Index(i).Set(walk(v.Index(i)))
+			}
+			return c
+		}
+		return v
+	}
+	return walk(reflect.ValueOf(n)).Interface().(ast.Node)
+}
+
 func terminates(ss []ast.Stmt) bool {
 	if len(ss) == 0 {
 		return false
@@ -1409,6 +1564,31 @@ func (c *ctx) stmts(ss []ast.Stmt, k string) string {
 			fail("%s: switch form: %s", c.f.name, src(s))
 		}
 		tag := c.expr(s.Tag, "")
+		// switch X { case K1: A1 ... default: D } on a number, with every case body returning = if X == K1 { A1 }; ...; D
+		if tag.pure && (tag.ty == "nat" || tag.ty == "N" || tag.ty == "Z") && s.Init == nil {
+			var chain []ast.Stmt
+			var dflt []ast.Stmt
+			ok := true
+			for i, b := range s.Body.List {
+				cc := b.(*ast.CaseClause)
+				if cc.List == nil {
+					if i != len(s.Body.List)-1 {
+						ok = false
+					}
+					dflt = cc.Body
+					continue
+				}
+				if len(cc.List) != 1 || !terminates(cc.Body) {
+					ok = false
+					break
+				}
+				chain = append(chain, &ast.IfStmt{Cond: &ast.BinaryExpr{X: s.Tag, Op: token.EQL, Y: cc.List[0]}, Body: &ast.BlockStmt{List: cc.Body}})
+			}
+			if ok {
+				chain = append(chain, dflt...)
+				return c.stmts(append(chain, rest...), k)
+			}
+		}
 		if !tag.pure || tag.ty != "kind" {
 			fail("%s: switch on %s", c.f.name, tag.ty)
 		}
@@ -1429,6 +1609,14 @@ func (c *ctx) stmts(ss []ast.Stmt, k string) string {
 			code = fmt.Sprintf("if kind_eqb (%s) %s then\n%s\nelse\n%s", tag.code, kc.code, c.clone().stmts(cc.Body, ""), code)
 		}
 		return code
+	case *ast.ForStmt:
+		// for i := 0; i < len(X); i++ { BODY }  with X a variable and BODY assigning neither i nor X, no break / continue / goto:
+		// the same loop as  for i, x := range X { BODY with x for X[i] }  (X[i] is only read; when BODY stores into X[i] the loop
+		// stays outside the subset).  Rewritten to that form, so that it is the same Coq term.
+		if r, ok := indexLoopAsRange(s); ok {
+			return c.stmts(append([]ast.Stmt{r}, rest...), k)
+		}
+		fail("%s: statement outside the subset: %s", c.f.name, src(s))
 	case *ast.RangeStmt:
 		if s.Key == nil || s.Value == nil || s.Tok != token.DEFINE {
 			fail("%s: range form: %s", c.f.name, src(s))
